@@ -127,8 +127,11 @@ func (pdb *pgDb) stop(ctx context.Context) error {
 
 func (pdb *pgDb) Abort(ctx context.Context) {
 	logg.InfoCtxf(ctx, "aborting tx", "tx", pdb.tx)
-	pdb.tx.Rollback(ctx)
-	pdb.tx = nil
+	if pdb.tx != nil {
+		pdb.tx.Rollback(ctx)
+		pdb.tx = nil
+	}
+	pdb.multi = false
 }
 
 // Put implements Db.
@@ -155,6 +158,7 @@ func (pdb *pgDb) Put(ctx context.Context, key []byte, val []byte) error {
 
 	_, err = pdb.tx.Exec(ctx, query, actualKey, val)
 	if err != nil {
+		pdb.Abort(ctx)
 		return err
 	}
 
